@@ -1,7 +1,7 @@
 SPECIFICATION Spec
 CONSTANTS
   Alphabet = {0, 1, 2, 17, 84, 85, 127, 128, 200, 254, 255}
-  MaxRowLen = 8
+  MaxRowLen = 12
   MaxRows = 4
   MaxLenAscii = 13
 INVARIANT RoundTrip
